@@ -720,7 +720,7 @@ func (g *VCGen) copyBuiltin(c *ssa.CallCommon, pos token.Pos, v *ssa.Call) SpecV
 }
 
 func stdlibPure(path string) bool {
-	for _, p := range []string{"strings", "strconv", "fmt", "errors", "time", "os", "log", "math", "math/rand", "bytes", "sort", "unicode", "unicode/utf8", "path/filepath", "io", "runtime/debug", "net/rpc"} {
+	for _, p := range []string{"strings", "strconv", "fmt", "errors", "time", "os", "log", "math", "math/rand", "bytes", "sort", "unicode", "unicode/utf8", "path/filepath", "io", "io/ioutil", "path", "runtime/debug", "net/rpc"} {
 		if path == p {
 			return true
 		}
